@@ -439,8 +439,10 @@ UpdSus(m, e) ==
 
 UpdReq(m, e, s) ==
   IF e[2] \in {"sus_install", "sus_remove", "sig_put"}
+  \* (a signal change is recorded with the direction of the change -- sig_put1 / sig_put0 -- so that findings can name it)
   THEN UpdSus([m EXCEPT !.curCmd = "", !.curRun = "none",
-                        !.reqs = Append(@, [kind |-> e[2], pc |-> Where(m), st |-> m.st, res |-> m.ckpt, out |-> "", after |-> m.lastCmd])], e) ELSE
+                        !.reqs = Append(@, [kind |-> IF e[2] = "sig_put" THEN (IF e[6] # 0 THEN "sig_put1" ELSE "sig_put0") ELSE e[2],
+                                            pc |-> Where(m), st |-> m.st, res |-> m.ckpt, out |-> "", after |-> m.lastCmd])], e) ELSE
   LET kind == e[2]
       rec == [kind |-> kind, pc |-> Where(m), st |-> m.st, res |-> m.ckpt, out |-> "", after |-> m.lastCmd]
   IN [m EXCEPT !.reqs = Append(@, rec), !.curCmd = "", !.curRun = "none"]
@@ -449,7 +451,7 @@ UpdReqRet(m, e, s2) ==
   LET kind == e[2] out == e[3]
       \* the request this completion belongs to: the latest one of that kind still without an outcome (requests made back to
       \* back complete in any order)
-      cand == {i \in 1..Len(m.reqs) : m.reqs[i].kind = kind /\ m.reqs[i].out = ""}
+      cand == {i \in 1..Len(m.reqs) : (m.reqs[i].kind = kind \/ (kind = "sig_put" /\ m.reqs[i].kind \in {"sig_put0", "sig_put1"})) /\ m.reqs[i].out = ""}
       ix == IF cand = {} THEN Len(m.reqs) ELSE CHOOSE i \in cand : \A j \in cand : j <= i
       last == m.reqs[ix]
       m1 == [m EXCEPT !.reqs[ix].out = out]
